@@ -201,6 +201,19 @@ def slice_closure(ct, ordinal, pat, name):
     return ct[i:k]
 
 
+def slice_inner_block(ct, ordinal, pat, name):
+    """R10b: narrow to an inner brace block of the item: the `ordinal`-th (1-based) occurrence of the token pattern `pat`, whose
+    last token must be `{` (e.g. `} else {`, `if x {`); the result is that `{ .. }` block, which a following STMTS clause treats as
+    the body."""
+    if not pat or pat[-1] != "{":
+        raise ExtractError(f"BLOCK anchor must end with '{{' in {name}")
+    hits = [i for i in range(len(ct)) if [x.text for x in ct[i:i + len(pat)]] == pat]
+    if len(hits) < ordinal:
+        raise ExtractError(f"BLOCK anchor {' '.join(pat)!r}: only {len(hits)} occurrences in {name}, wanted #{ordinal}")
+    o = hits[ordinal - 1] + len(pat) - 1
+    return ct[o:match_close(ct, o) + 1]
+
+
 def slice_statements(ct, pat_a, pat_b, name):
     """R10: the statements of a fn body from the one starting with tokens pat_a through the end of the
     one starting with pat_b (both at the top level of the body)."""
@@ -484,6 +497,7 @@ class Block:
         self.obls = []
         self.stmts = None   # (start pattern tokens, end pattern tokens) for statement-level extraction (rule R10)
         self.closure = None # (ordinal, start pattern tokens): expression-level extraction of a closure (rule R10c)
+        self.inner = None   # (ordinal, pattern tokens ending in '{'): narrow to an inner block (rule R10b)
         self.substs = []
         self.lines = []  # annotated text lines
         self.start_line = 0
@@ -538,6 +552,12 @@ def parse_template(text):
                             raise ExtractError(f"line {ln}: bad CLOSURE clause")
                         cur.closure = (int(m.group(1)), [t.text for t in code_tokens(tokenize(m.group(2)))])
                         cur.order = getattr(cur, "order", []) + ["closure"]
+                    elif extra.startswith("BLOCK"):
+                        m = re.match(r"BLOCK\s+(\d+)\s+`(.*?)`\s*$", extra)
+                        if not m:
+                            raise ExtractError(f"line {ln}: bad BLOCK clause")
+                        cur.inner = (int(m.group(1)), [t.text for t in code_tokens(tokenize(m.group(2)))])
+                        cur.order = getattr(cur, "order", []) + ["inner"]
                     elif extra.startswith("STMTS"):
                         m = re.match(r"STMTS\s+`(.*?)`\s*\.\.\s*`(.*?)`\s*$", extra)
                         if not m:
@@ -608,7 +628,7 @@ def fetch_real(repo, blk, unit_substs):
     except OSError as e:
         raise ExtractError(f"cannot read {path}: {e}")
     ct = find_item(src, blk.impl_pat, blk.kind, blk.name)
-    if blk.stmts or blk.closure:
+    if blk.stmts or blk.closure or getattr(blk, "inner", None):
         # statement / closure anchors are matched on the text without attributes and log statements
         ct = rule_R1_attrs(ct, log)
         ct = rule_R2_logs(ct, log)
@@ -619,6 +639,8 @@ def fetch_real(repo, blk, unit_substs):
             ct = slice_statements(ct, blk.stmts[0], blk.stmts[1], blk.name)
         if what == "closure" and blk.closure:
             ct = slice_closure(ct, blk.closure[0], blk.closure[1], blk.name)
+        if what == "inner" and getattr(blk, "inner", None):
+            ct = slice_inner_block(ct, blk.inner[0], blk.inner[1], blk.name)
     raw_text = " ".join(t.text for t in ct)
     ct = rule_R1_attrs(ct, log)
     ct = rule_R2_logs(ct, log)
